@@ -57,7 +57,7 @@ PARAMS = OrderedDict(
         ("x", _A),
     ]
 )
-VARS = [("v", "A"), ("vb", "B")]
+VARS = [("v", "A"), ("vb", "B"), ("v2", "A")]  # v2: second A-variable (capture cases)
 
 
 def _F(z):
